@@ -26,12 +26,12 @@ def posOf (n : Str) : List (Str × Member) → Option Nat
 
 /-- a call and where it fails: `none` = it completes; `some k` = it raises while member `k` (0 = `mimetype`) is written.
     Only `save` / `write` take a stream; a fault on another call is ignored (those calls build a string in memory). -/
-structure Call where
+structure CallAt where
   op : Op
   fault : Option Nat
 deriving Repr, Inhabited
 
-def Call.fails (c : Call) : Bool :=
+def CallAt.fails (c : CallAt) : Bool :=
   match c.op, c.fault with
   | .save, some _ | .write, some _ => true
   | _, _ => false
@@ -42,25 +42,35 @@ def failStep (c : Cfg) (k : Nat) (d : Doc) : Doc :=
   | some m => if m ≤ k then normGen c.tv d else d
   | none => d
 
-def stepC (c : Cfg) (call : Call) (d : Doc) : Doc :=
+def stepAt (c : Cfg) (call : CallAt) (d : Doc) : Doc :=
   match call.op, call.fault with
   | .save, some k | .write, some k => failStep c k d
   | op, _ => step c op d
 
 /-- what the call hands back: nothing when it raised -/
-def outC (c : Cfg) (call : Call) (d : Doc) : Option Out :=
+def outAt (c : Cfg) (call : CallAt) (d : Doc) : Option Out :=
   if call.fails then none else some (out c call.op d)
 
-def runC (c : Cfg) : List Call → Doc → Doc
+def runAt (c : Cfg) : List CallAt → Doc → Doc
   | [], d => d
-  | x :: r, d => runC c r (stepC c x d)
+  | x :: r, d => runAt c r (stepAt c x d)
 
-def outsC (c : Cfg) : List Call → Doc → List (Option Out)
+def outsAt (c : Cfg) : List CallAt → Doc → List (Option Out)
   | [], _ => []
-  | x :: r, d => outC c x d :: outsC c r (stepC c x d)
+  | x :: r, d => outAt c x d :: outsAt c r (stepAt c x d)
+
+/-- the same call in the coarser vocabulary of `Render.Call` (a call that got through / raised before / raised after
+    `metaxml()` ran): what the position `k` decides is only on which side of `meta.xml` the failure fell -/
+def classify (c : Cfg) (d : Doc) (x : CallAt) : Render.Call :=
+  match x.op, x.fault with
+  | .save, some k | .write, some k =>
+    (match posOf (str "meta.xml") (pkg c.followed (normGen c.tv d)) with
+     | some m => if m ≤ k then .failedLate else .failedEarly
+     | none => .failedEarly)
+  | op, _ => .ok op
 
 /-- the history with the failed calls taken out -/
-def completed : List Call → List Op
+def completed : List CallAt → List Op
   | [] => []
   | x :: r => if x.fails then completed r else x.op :: completed r
 
